@@ -61,6 +61,9 @@ class Opts:
         self.p_gap = 0.2
         self.p_size_attr = 0.4
         self.p_nearmiss = 0.0
+        self.pub_bases = False
+        self.p_priv_item = None      # probability of a private type / enum / function (default: p_priv)
+        self.static_fns = True
         self.p_ptr_forward = 0.3
         self.p_cc = 0.3
         self.p_index = 0.3
@@ -174,7 +177,7 @@ class WorldGen:
         at = docs(rng, o)
         args = []
         r = rng.random()
-        if (vfunc and r < 0.88) or (not vfunc and r < 0.7):
+        if (vfunc and r < 0.97) or (not vfunc and (r < 0.7 or not o.static_fns)):
             args.append(SELF if rng.random() < 0.5 else MUTSELF)
         for i in range(rng.randint(0, o.max_args)):
             args.append(arg('a%d' % i, self.arg_type(m)))
@@ -183,7 +186,7 @@ class WorldGen:
             at.append(a_fn('calling_convention', e_str(rng.choice(CCS))))
         if not vfunc:
             at.append(a_int('address', self.next_addr()))
-        pub = rng.random() > o.p_priv
+        pub = rng.random() > (o.p_priv if o.p_priv_item is None else o.p_priv_item)
         return fn(pub, name, at, args, ret), pub
 
     # ---------------------------------------------------------------- items
@@ -220,7 +223,7 @@ class WorldGen:
         if defaultable: at.append(a_ident('defaultable'))
         if copyable and rng.random() < o.p_singleton:
             at.append(a_int('singleton', self.next_addr()))
-        pub = rng.random() > o.p_priv
+        pub = rng.random() > (o.p_priv if o.p_priv_item is None else o.p_priv_item)
         m.defs.append(enum_def(pub, name, ty_id(base), at, stmts))
         info = TypeInfo(m, name, 'enum', bsize, bsize, pub, defaultable, copyable, cloneable, is_struct=False)
         self.known.append(info)
@@ -314,7 +317,7 @@ class WorldGen:
                 stmts.append(field(False, '_', ty_unk(g), []))
                 nregions += 1; sole_align = 1
                 off += g
-            pubf = rng.random() > o.p_priv
+            pubf = rng.random() > o.p_priv or (is_base and o.pub_bases)
             stmts.append(field(pubf, fname, t, fat))
             if emitted:
                 nregions += 1; sole_align = a
@@ -379,7 +382,7 @@ class WorldGen:
         copy_ok = copyable and all_copy
         if rng.random() < o.p_singleton:
             at.append(a_int('singleton', self.next_addr()))
-        pub = rng.random() > o.p_priv
+        pub = rng.random() > (o.p_priv if o.p_priv_item is None else o.p_priv_item)
         m.defs.append(type_def(pub, name, at, stmts))
         # ---- impl block
         pubfns = []
